@@ -2,11 +2,12 @@ package objstl
 
 import (
 	"bufio"
-	"bytes"
 	"encoding/json"
 	"fmt"
+	"math"
 	"math/rand"
 	"os"
+	"path/filepath"
 
 	"github.com/EliCDavis/polyform/formats/stl"
 	"github.com/EliCDavis/polyform/modeling"
@@ -27,13 +28,21 @@ type GRec struct {
 	A int     `json:"a"`
 }
 
+// StlSeeded: a mesh / record list drawn by the seeded recorder. The fields
+// after NTris (round 2) fix the shape instead of drawing it; their zero value
+// is "drawn from the seed".
 type StlSeeded struct {
-	Seed  int64 `json:"seed"`
-	NTris int   `json:"ntris"`
+	Seed   int64 `json:"seed"`
+	NTris  int   `json:"ntris"`
+	NVerts int   `json:"nverts"` // > 0: exactly this many vertices, random welded indices; -1: unwelded (3 per triangle)
+	Nrm    int   `json:"nrm"`    // 1: with corner normals, 2: without
+	NExp   int   `json:"nexp"`   // corner normals are lattice vectors times 2^nexp (magnitude range)
+	Edge   int   `json:"edge"`   // 1: boundary float values among the positions, 2: also NaN / Inf
 }
 
 type StlCase struct {
-	K      string     `json:"k"` // "sw" | "sr"
+	K      string     `json:"k"`             // "sw" | "sr" | "sb" | "sz"
+	Dir    string     `json:"dir,omitempty"` // "sz": "w" mesh -> file -> mesh, "r" records -> mesh -> file
 	Tag    string     `json:"tag"`
 	Enc    string     `json:"enc"`
 	Q      int        `json:"q"`
@@ -41,6 +50,10 @@ type StlCase struct {
 	Mesh   *StlAMesh  `json:"mesh,omitempty"`
 	Gen    []GRec     `json:"gen,omitempty"`
 	Seeded *StlSeeded `json:"seeded,omitempty"`
+	Cid    *int       `json:"cid,omitempty"` // the case's number in the run it was recorded in (replays keep it)
+	Io     int        `json:"io"`            // reader variant (iomodes.go)
+	Wio    int        `json:"wio"`           // writer variant
+	Rep    int        `json:"rep"`           // > 1: every call is made this many times on the same input, the last result counts
 }
 
 // ---- projections -----------------------------------------------------------
@@ -57,7 +70,9 @@ type StlObs struct {
 	Nrm [][]int `json:"nrm"` // rounded to 1/4096
 }
 
-func stlSrc(m modeling.Mesh, enc Enc, qn int) StlSrc {
+// nexp: the case built its corner normals as lattice vectors times 2^nexp
+// (exact); they are logged in lattice units.
+func stlSrc(m modeling.Mesh, enc Enc, qn int, nexp int) StlSrc {
 	p := StlSrc{Idx: projIdx(m), Pos: [][][]int{}, Nrm: [][]int{}}
 	if m.HasFloat3Attribute(modeling.PositionAttribute) {
 		a := m.Float3Attribute(modeling.PositionAttribute)
@@ -71,7 +86,7 @@ func stlSrc(m modeling.Mesh, enc Enc, qn int) StlSrc {
 		a := m.Float3Attribute(modeling.NormalAttribute)
 		for i := 0; i < a.Len(); i++ {
 			v := a.At(i)
-			p.Nrm = append(p.Nrm, ne.ObsVec(v.X(), v.Y(), v.Z()))
+			p.Nrm = append(p.Nrm, ne.ObsVec(math.Ldexp(v.X(), -nexp), math.Ldexp(v.Y(), -nexp), math.Ldexp(v.Z(), -nexp)))
 		}
 	}
 	return p
@@ -79,16 +94,26 @@ func stlSrc(m modeling.Mesh, enc Enc, qn int) StlSrc {
 
 func stlObs(m modeling.Mesh, enc Enc) StlObs {
 	p := StlObs{Idx: projIdx(m), Pos: [][]int{}, Nrm: [][]int{}}
+	if capRecs < noCap/4 && len(p.Idx) > 3*capRecs {
+		p.Idx = p.Idx[:3*capRecs]
+		capHit = true
+	}
+	lim := func(n int) int {
+		if capRecs < noCap/4 && n > 3*capRecs {
+			return 3 * capRecs
+		}
+		return n
+	}
 	if m.HasFloat3Attribute(modeling.PositionAttribute) {
 		a := m.Float3Attribute(modeling.PositionAttribute)
-		for i := 0; i < a.Len(); i++ {
+		for i := 0; i < lim(a.Len()); i++ {
 			v := a.At(i)
 			p.Pos = append(p.Pos, enc.ObsVec(v.X(), v.Y(), v.Z()))
 		}
 	}
 	if m.HasFloat3Attribute(modeling.NormalAttribute) {
 		a := m.Float3Attribute(modeling.NormalAttribute)
-		for i := 0; i < a.Len(); i++ {
+		for i := 0; i < lim(a.Len()); i++ {
 			v := a.At(i)
 			p.Nrm = append(p.Nrm, []int{scaleNormal(v.X()), scaleNormal(v.Y()), scaleNormal(v.Z())})
 		}
@@ -119,7 +144,7 @@ func stlBuildLattice(a StlAMesh, q, qn int) modeling.Mesh {
 
 // stlBuildSeeded: arbitrary finite float64 positions, random (welded) index
 // pattern, corner normals on the 1/qn lattice with positive z (their sum
-// never vanishes, so the normalised mean is defined).
+// never vanishes, so the normalised mean is defined), scaled by 2^NExp.
 func stlBuildSeeded(s StlSeeded, qn int) modeling.Mesh {
 	r := rand.New(rand.NewSource(s.Seed))
 	nt := s.NTris
@@ -127,11 +152,16 @@ func stlBuildSeeded(s StlSeeded, qn int) modeling.Mesh {
 	if nt > 0 && r.Intn(2) == 0 {
 		nv = 3 + r.Intn(2*nt+1)
 	}
+	if s.NVerts > 0 {
+		nv = s.NVerts
+	}
 	idx := make([]int, 3*nt)
 	for k := range idx {
-		idx[k] = r.Intn(nv)
+		if nv > 0 {
+			idx[k] = r.Intn(nv)
+		}
 	}
-	if r.Intn(3) == 0 { // unwelded identity
+	if (r.Intn(3) == 0 && s.NVerts == 0) || s.NVerts < 0 { // unwelded identity
 		nv = 3 * nt
 		for k := range idx {
 			idx[k] = k
@@ -139,14 +169,25 @@ func stlBuildSeeded(s StlSeeded, qn int) modeling.Mesh {
 	}
 	m := modeling.NewTriangleMesh(idx)
 	pos := make([]vector3.Float64, nv)
+	real := func() float64 {
+		if s.Edge > 0 && r.Intn(3) == 0 {
+			return edgeReal(r, s.Edge > 1)
+		}
+		return randomReal(r)
+	}
 	for k := range pos {
-		pos[k] = vector3.New(randomReal(r), randomReal(r), randomReal(r))
+		pos[k] = vector3.New(real(), real(), real())
 	}
 	m = m.SetFloat3Attribute(modeling.PositionAttribute, pos)
-	if r.Intn(3) > 0 {
+	withN := r.Intn(3) > 0
+	if s.Nrm != 0 {
+		withN = s.Nrm == 1
+	}
+	if withN {
+		sc := math.Ldexp(1/float64(qn), s.NExp)
 		n := make([]vector3.Float64, nv)
 		for k := range n {
-			n[k] = vector3.New(float64(r.Intn(17)-8)/float64(qn), float64(r.Intn(17)-8)/float64(qn), float64(1+r.Intn(8))/float64(qn))
+			n[k] = vector3.New(float64(r.Intn(17)-8)*sc, float64(r.Intn(17)-8)*sc, float64(1+r.Intn(8))*sc)
 		}
 		m = m.SetFloat3Attribute(modeling.NormalAttribute, n)
 	}
@@ -161,6 +202,9 @@ var unitDirs = [][]int{{60, 0, 0}, {0, -60, 0}, {0, 0, 60}, {36, 48, 0}, {0, 36,
 func stlSeededRecs(s StlSeeded) ([]GRec, []FRec) {
 	r := rand.New(rand.NewSource(s.Seed))
 	allZero := r.Intn(3) == 0
+	if s.Nrm != 0 {
+		allZero = s.Nrm == 2
+	}
 	g := []GRec{}
 	f := []FRec{}
 	for i := 0; i < s.NTris; i++ {
@@ -175,6 +219,9 @@ func stlSeededRecs(s StlSeeded) ([]GRec, []FRec) {
 			var bits []int
 			for k := 0; k < 3; k++ {
 				x := float32(randomReal(r))
+				if s.Edge > 0 && r.Intn(3) == 0 {
+					x = float32(edgeReal(r, s.Edge > 1))
+				}
 				fr.V[c][k] = x
 				bits = append(bits, f32bits(x))
 			}
@@ -202,6 +249,7 @@ type swLine struct {
 	Rerr string `json:"rerr"`
 	Rd   StlObs `json:"rd"`
 	Note string `json:"note"`
+	Io   string `json:"io"`
 }
 
 type srLine struct {
@@ -215,21 +263,69 @@ type srLine struct {
 	Werr string `json:"werr"`
 	F2   SFile  `json:"f2"`
 	Note string `json:"note"`
+	Io   string `json:"io"`
+}
+
+// sbLine: the record-level API. gen -> (independent encoder) -> bytes = f ;
+// stl.Read -> bin ; stl.Write(bin) -> f2. Normals are logged as float32 bit
+// patterns here (recs[..].n of f, bin, f2): the records must come back exactly.
+type sbLine struct {
+	K    string `json:"k"`
+	Id   int    `json:"id"`
+	Lat  bool   `json:"lat"`
+	Gen  []GRec `json:"gen"`
+	F    SFile  `json:"f"`
+	Rerr string `json:"rerr"`
+	Bin  []SRec `json:"bin"`
+	Werr string `json:"werr"`
+	F2   SFile  `json:"f2"`
+	Note string `json:"note"`
+	Io   string `json:"io"`
 }
 
 func emptyFile() SFile { return SFile{Count: -1, Recs: []SRec{}} }
 func emptyObs() StlObs { return StlObs{Idx: []int{}, Pos: [][]int{}, Nrm: [][]int{}} }
 
-func stlRead(b []byte, enc Enc) (string, string, StlObs, *modeling.Mesh) {
+func ioName(c StlCase) string {
+	return fmt.Sprintf("%s/%s/x%d", readerModeName(c.Io), writerModeName(c.Wio), c.Rep)
+}
+
+// stlReadRaw gives the bytes to stl.ReadMesh through the reader variant (RdFile:
+// stl.Load of a file holding them).
+func stlReadRaw(b []byte, mode int, id int) (string, string, StlObs, *modeling.Mesh) {
 	var got *modeling.Mesh
 	msg, detail := guard(func() error {
-		var err error
-		got, err = stl.ReadMesh(bytes.NewReader(b))
-		if err == nil && got == nil {
-			return fmt.Errorf("nil mesh without error")
-		}
-		return err
+		return repeat(func() error {
+			var err error
+			if mode == RdFile {
+				d, derr := caseDir("stl", id)
+				if derr != nil {
+					infra(derr)
+				}
+				fp := filepath.Join(d, "in.stl")
+				if werr := os.WriteFile(fp, b, 0o644); werr != nil {
+					infra(werr)
+				}
+				got, err = stl.Load(fp)
+				_ = os.Remove(fp)
+			} else {
+				got, err = stl.ReadMesh(wrapReader(b, mode))
+			}
+			if err == nil && got == nil {
+				return fmt.Errorf("nil mesh without error")
+			}
+			return err
+		})
 	})
+	if msg != "" {
+		return msg, detail, emptyObs(), nil
+	}
+	return "", "", emptyObs(), got
+}
+
+// stlRead: stlReadRaw and the projection of the mesh.
+func stlRead(b []byte, enc Enc, mode int, id int) (string, string, StlObs, *modeling.Mesh) {
+	msg, detail, _, got := stlReadRaw(b, mode, id)
 	if msg != "" {
 		return msg, detail, emptyObs(), nil
 	}
@@ -241,23 +337,143 @@ func stlRead(b []byte, enc Enc) (string, string, StlObs, *modeling.Mesh) {
 	return "", "", rd, got
 }
 
-func stlWrite(m modeling.Mesh) (string, string, []byte) {
-	var buf bytes.Buffer
-	msg, detail := guard(func() error { return stl.WriteMesh(&buf, m) })
-	return msg, detail, buf.Bytes()
+// stlWrite hands the mesh to stl.WriteMesh with the writer variant (WrFile:
+// stl.Save to a file, whose bytes are then read).
+func stlWrite(m modeling.Mesh, mode int, id int) (string, string, []byte) {
+	var out []byte
+	msg, detail := guard(func() error {
+		if mode == WrFile {
+			d, derr := caseDir("stl", id)
+			if derr != nil {
+				infra(derr)
+			}
+			fp := filepath.Join(d, "out.stl")
+			if err := repeat(func() error { return stl.Save(fp, m) }); err != nil { // the same path again: Save replaces the file
+				return err
+			}
+			b, rerr := os.ReadFile(fp)
+			if rerr != nil {
+				infra(rerr)
+			}
+			_ = os.Remove(fp)
+			out = b
+			return nil
+		}
+		return repeat(func() error {
+			sk := newSink(mode)
+			if err := stl.WriteMesh(sk.W, m); err != nil {
+				return err
+			}
+			b, err := sk.Bytes()
+			out = b
+			return err
+		})
+	})
+	return msg, detail, out
+}
+
+// szLine: sizes only, for counts too large to judge record by record.
+//
+//	dir "w": seeded mesh of n triangles -> stl.WriteMesh -> f (sizes of the bytes) -> stl.ReadMesh -> rdn triangles
+//	dir "r": n seeded records -> (independent encoder) -> f -> stl.ReadMesh -> rdn -> stl.WriteMesh -> f2
+type szLine struct {
+	K    string  `json:"k"`
+	Id   int     `json:"id"`
+	Dir  string  `json:"dir"`
+	N    int     `json:"n"`
+	Werr string  `json:"werr"`
+	F    SzSizes `json:"f"`
+	Rerr string  `json:"rerr"`
+	RdN  int     `json:"rdn"`
+	F2   SzSizes `json:"f2"`
+	Note string  `json:"note"`
+	Io   string  `json:"io"`
+}
+
+// SzSizes: what ParseStl says about a byte string, without the records.
+type SzSizes struct {
+	Nbytes int `json:"nbytes"`
+	Count  int `json:"count"`
+	Rem    int `json:"rem"`
+	Nrecs  int `json:"nrecs"`
+}
+
+func stlSizes(b []byte) SzSizes {
+	z := SzSizes{Nbytes: len(b), Count: -1}
+	if len(b) < 84 {
+		z.Rem = len(b)
+		return z
+	}
+	c := le32(b[80:84])
+	if c > 1<<30 {
+		c = 1 << 30
+	}
+	z.Count = int(c)
+	z.Nrecs = (len(b) - 84) / 50
+	z.Rem = (len(b) - 84) % 50
+	return z
+}
+
+// meshTris: the number of triangles of a mesh through its public observers (-1: not a triangle list).
+func meshTris(m modeling.Mesh) int {
+	n := m.Indices().Len()
+	if n%3 != 0 {
+		return -1
+	}
+	return n / 3
+}
+
+func runSz(id int, c StlCase, keep string) szLine {
+	ln := szLine{K: "sz", Id: id, Dir: c.Dir, F: SzSizes{Count: -1}, F2: SzSizes{Count: -1}, RdN: -1, Io: ioName(c)}
+	if c.Dir == "w" {
+		m := stlBuildSeeded(*c.Seeded, c.Qn)
+		ln.N = meshTris(m)
+		var b []byte
+		ln.Werr, ln.Note, b = stlWrite(m, c.Wio, id)
+		if ln.Werr != "" {
+			return ln
+		}
+		ln.F = stlSizes(b)
+		var got *modeling.Mesh
+		ln.Rerr, ln.Note, _, got = stlReadRaw(b, c.Io, id)
+		if ln.Rerr == "" {
+			ln.RdN = meshTris(*got)
+		}
+		return ln
+	}
+	_, recs := stlSeededRecs(*c.Seeded)
+	ln.N = len(recs)
+	b := EncodeStl(recs, stlTitle(id))
+	ln.F = stlSizes(b)
+	var got *modeling.Mesh
+	ln.Rerr, ln.Note, _, got = stlReadRaw(b, c.Io, id)
+	if ln.Rerr != "" {
+		return ln
+	}
+	ln.RdN = meshTris(*got)
+	var b2 []byte
+	ln.Werr, ln.Note, b2 = stlWrite(*got, c.Wio, id)
+	if ln.Werr != "" {
+		return ln
+	}
+	ln.F2 = stlSizes(b2)
+	return ln
 }
 
 func runSw(id int, c StlCase, keep string) swLine {
 	enc := Enc{Mode: c.Enc, Q: c.Q}
 	var m modeling.Mesh
+	nexp := 0
 	if c.Seeded != nil {
 		m = stlBuildSeeded(*c.Seeded, c.Qn)
+		nexp = c.Seeded.NExp
 	} else {
 		m = stlBuildLattice(*c.Mesh, c.Q, c.Qn)
 	}
-	ln := swLine{K: "sw", Id: id, Lat: c.Enc == "lat", Src: stlSrc(m, enc, c.Qn), F: emptyFile(), Rd: emptyObs()}
+	ln := swLine{K: "sw", Id: id, Lat: c.Enc == "lat", Src: stlSrc(m, enc, c.Qn, nexp), F: emptyFile(), Rd: emptyObs(), Io: ioName(c)}
+	capRecs = len(ln.Src.Idx)/3 + 16
 	var b []byte
-	ln.Werr, ln.Note, b = stlWrite(m)
+	ln.Werr, ln.Note, b = stlWrite(m, c.Wio, id)
 	if ln.Werr != "" {
 		return ln
 	}
@@ -265,48 +481,60 @@ func runSw(id int, c StlCase, keep string) swLine {
 		_ = os.WriteFile(fmt.Sprintf("%s/case%d.stl", keep, id), b, 0o644)
 	}
 	ln.F = ParseStl(b, enc)
-	ln.Rerr, ln.Note, ln.Rd, _ = stlRead(b, enc)
+	ln.Rerr, ln.Note, ln.Rd, _ = stlRead(b, enc, c.Io, id)
 	return ln
 }
 
-func runSr(id int, c StlCase, keep string) srLine {
-	enc := Enc{Mode: c.Enc, Q: c.Q}
-	ln := srLine{K: "sr", Id: id, Lat: c.Enc == "lat", Gen: c.Gen, F: emptyFile(), Rd: emptyObs(), F2: emptyFile()}
-	var recs []FRec
+// stlCaseRecs: the records of an "sr" / "sb" case as real numbers.
+func stlCaseRecs(c StlCase) ([]GRec, []FRec) {
 	if c.Seeded != nil {
-		ln.Gen, recs = stlSeededRecs(*c.Seeded)
-	} else {
-		for _, g := range c.Gen {
-			var fr FRec
-			for k := 0; k < 3; k++ {
-				fr.N[k] = float32(float64(g.N[k]) / float64(c.Qn))
-				for cc := 0; cc < 3; cc++ {
-					fr.V[cc][k] = float32(float64(g.V[cc][k]) / float64(c.Q))
-				}
+		return stlSeededRecs(*c.Seeded)
+	}
+	recs := []FRec{}
+	for _, g := range c.Gen {
+		var fr FRec
+		for k := 0; k < 3; k++ {
+			fr.N[k] = float32(float64(g.N[k]) / float64(c.Qn))
+			for cc := 0; cc < 3; cc++ {
+				fr.V[cc][k] = float32(float64(g.V[cc][k]) / float64(c.Q))
 			}
-			fr.A = uint16(g.A)
-			recs = append(recs, fr)
 		}
+		fr.A = uint16(g.A)
+		recs = append(recs, fr)
 	}
-	if ln.Gen == nil {
-		ln.Gen = []GRec{}
+	gen := c.Gen
+	if gen == nil {
+		gen = []GRec{}
 	}
+	return gen, recs
+}
+
+func stlTitle(id int) string {
 	title := fmt.Sprintf("verif case %d", id)
 	if id%3 == 0 { // a binary file whose header happens to start like an ASCII one is still binary STL
 		title = "solid " + title
 	}
-	b := EncodeStl(recs, title)
+	return title
+}
+
+func runSr(id int, c StlCase, keep string) srLine {
+	enc := Enc{Mode: c.Enc, Q: c.Q}
+	ln := srLine{K: "sr", Id: id, Lat: c.Enc == "lat", F: emptyFile(), Rd: emptyObs(), F2: emptyFile(), Io: ioName(c)}
+	var recs []FRec
+	ln.Gen, recs = stlCaseRecs(c)
+	capRecs = len(recs) + 16
+	b := EncodeStl(recs, stlTitle(id))
 	if keep != "" {
 		_ = os.WriteFile(fmt.Sprintf("%s/case%d.stl", keep, id), b, 0o644)
 	}
 	ln.F = ParseStl(b, enc)
 	var got *modeling.Mesh
-	ln.Rerr, ln.Note, ln.Rd, got = stlRead(b, enc)
+	ln.Rerr, ln.Note, ln.Rd, got = stlRead(b, enc, c.Io, id)
 	if ln.Rerr != "" {
 		return ln
 	}
 	var b2 []byte
-	ln.Werr, ln.Note, b2 = stlWrite(*got)
+	ln.Werr, ln.Note, b2 = stlWrite(*got, c.Wio, id)
 	if ln.Werr != "" {
 		return ln
 	}
@@ -317,8 +545,78 @@ func runSr(id int, c StlCase, keep string) srLine {
 	return ln
 }
 
+// binRecs projects what stl.Read returned the way the parser projects a file.
+func binRecs(bin *stl.Binary, enc Enc) []SRec {
+	out := []SRec{}
+	for i, t := range bin.Triangles {
+		if i >= capRecs {
+			capHit = true
+			break
+		}
+		rec := SRec{N: []int{f32bits(t.Normal.X), f32bits(t.Normal.Y), f32bits(t.Normal.Z)},
+			Nz: t.Normal.X == 0 && t.Normal.Y == 0 && t.Normal.Z == 0, V: [][]int{}, A: int(t.Attribute)}
+		for _, v := range []stl.Vec{t.Vertex1, t.Vertex2, t.Vertex3} {
+			rec.V = append(rec.V, enc.ObsVec(float64(v.X), float64(v.Y), float64(v.Z)))
+		}
+		out = append(out, rec)
+	}
+	return out
+}
+
+func runSb(id int, c StlCase, keep string) sbLine {
+	enc := Enc{Mode: c.Enc, Q: c.Q}
+	ln := sbLine{K: "sb", Id: id, Lat: c.Enc == "lat", F: emptyFile(), Bin: []SRec{}, F2: emptyFile(), Io: ioName(c)}
+	var recs []FRec
+	ln.Gen, recs = stlCaseRecs(c)
+	capRecs = len(recs) + 16
+	b := EncodeStl(recs, stlTitle(id))
+	if keep != "" {
+		_ = os.WriteFile(fmt.Sprintf("%s/case%d.stl", keep, id), b, 0o644)
+	}
+	ln.F = parseStl(b, enc, true)
+	mode := c.Io
+	if mode == RdFile { // the record level has no file API
+		mode = RdChunk
+	}
+	var bin *stl.Binary
+	ln.Rerr, ln.Note = guard(func() error {
+		return repeat(func() error {
+			var err error
+			bin, err = stl.Read(wrapReader(b, mode))
+			if err == nil && bin == nil {
+				return fmt.Errorf("nil result without error")
+			}
+			return err
+		})
+	})
+	if ln.Rerr != "" {
+		return ln
+	}
+	ln.Bin = binRecs(bin, enc)
+	var b2 []byte
+	ln.Werr, ln.Note = guard(func() error {
+		return repeat(func() error {
+			sk := newSink(c.Wio)
+			if err := stl.Write(sk.W, *bin); err != nil {
+				return err
+			}
+			var err error
+			b2, err = sk.Bytes()
+			return err
+		})
+	})
+	if ln.Werr != "" {
+		return ln
+	}
+	if keep != "" {
+		_ = os.WriteFile(fmt.Sprintf("%s/case%d.saved.stl", keep, id), b2, 0o644)
+	}
+	ln.F2 = parseStl(b2, enc, true)
+	return ln
+}
+
 // RunStlCases executes cases (ndjson) on the real code and writes the trace.
-func RunStlCases(in, out, keep string) error {
+func RunStlCases(in, out, keep string, budgetSeconds int) error {
 	fi, err := os.Open(in)
 	if err != nil {
 		return err
@@ -335,6 +633,8 @@ func RunStlCases(in, out, keep string) error {
 	sc := bufio.NewScanner(fi)
 	sc.Buffer(make([]byte, 1<<20), 1<<28)
 	id := 0
+	defer removeTmp()
+	stop := newStopper(budgetSeconds)
 	for sc.Scan() {
 		if len(sc.Bytes()) == 0 {
 			continue
@@ -343,25 +643,56 @@ func RunStlCases(in, out, keep string) error {
 		if err := json.Unmarshal(sc.Bytes(), &c); err != nil {
 			return fmt.Errorf("case %d: %w", id, err)
 		}
+		setReps(c.Rep)
+		resetCaps()
+		cid := id
+		if c.Cid != nil { // what varies with the case number (titles, material file) is the same in a replay
+			cid = *c.Cid
+		}
 		switch c.K {
 		case "sw":
-			if err := encj.Encode(runSw(id, c, keep)); err != nil {
+			if err := encj.Encode(runSw(cid, c, keep)); err != nil {
 				return err
 			}
 		case "sr":
-			if err := encj.Encode(runSr(id, c, keep)); err != nil {
+			if err := encj.Encode(runSr(cid, c, keep)); err != nil {
+				return err
+			}
+		case "sb":
+			if err := encj.Encode(runSb(cid, c, keep)); err != nil {
+				return err
+			}
+		case "sz":
+			if err := encj.Encode(runSz(cid, c, keep)); err != nil {
 				return err
 			}
 		default:
 			return fmt.Errorf("case %d: unknown kind %q", id, c.K)
 		}
 		id++
+		if why := stop.after(); why != "" {
+			return encj.Encode(stopLine{K: "stop", Why: why, Done: id})
+		}
 	}
 	return sc.Err()
 }
 
-// GenStlRandom writes seeded "sw" and "sr" cases (sizes TLC does not enumerate).
-func GenStlRandom(out string, seed int64, nSw, nSr, maxTris int) error {
+// nexpTable: scales of the corner normals (2^e); the normalised mean does not
+// depend on the scale, float64 arithmetic has room for all of them.
+var nexpTable = []int{0, 0, 0, -100, 60, -60, 100, -20, 20}
+
+func edgeFor(i int) int {
+	switch i % 8 {
+	case 3, 5:
+		return 1
+	case 7:
+		return 2
+	}
+	return 0
+}
+
+// GenStlRandom writes seeded "sw", "sr" and "sb" cases (sizes TLC does not enumerate).
+func GenStlRandom(out string, seed int64, nSw, nSr, nSb, maxTris int) error {
 	fo, err := os.Create(out)
 	if err != nil {
 		return err
@@ -373,14 +704,19 @@ func GenStlRandom(out string, seed int64, nSw, nSr, maxTris int) error {
 	r := rand.New(rand.NewSource(seed))
 	for i := 0; i < nSw; i++ {
 		c := StlCase{K: "sw", Tag: "random", Enc: "f32", Q: 1, Qn: 4,
-			Seeded: &StlSeeded{Seed: seed*100003 + int64(i), NTris: r.Intn(maxTris + 1)}}
+			Seeded: &StlSeeded{Seed: seed*100003 + int64(i), NTris: r.Intn(maxTris + 1),
+				NExp: nexpTable[i%len(nexpTable)], Edge: edgeFor(i)}}
 		if err := enc.Encode(c); err != nil {
 			return err
 		}
 	}
-	for i := 0; i < nSr; i++ {
-		c := StlCase{K: "sr", Tag: "random", Enc: "f32", Q: 1, Qn: 60,
-			Seeded: &StlSeeded{Seed: seed*200003 + int64(i), NTris: r.Intn(maxTris + 1)}}
+	for i := 0; i < nSr+nSb; i++ {
+		k := "sr"
+		if i >= nSr {
+			k = "sb"
+		}
+		c := StlCase{K: k, Tag: "random", Enc: "f32", Q: 1, Qn: 60,
+			Seeded: &StlSeeded{Seed: seed*200003 + int64(i), NTris: r.Intn(maxTris + 1), Edge: edgeFor(i)}}
 		if err := enc.Encode(c); err != nil {
 			return err
 		}
